@@ -209,7 +209,14 @@ def check(run) -> None:
         raise TLCError("Turn.tla with StashCleared=FALSE should violate NothingWhenClosed")
     run.ok("Model.stale_stash_refuted")
     hs = [b["h"] for b in res.emitted]
-    run.extra["histories_in_model"] = len(hs)
+    # dry runs under the kill switch (the dry run's early return sits behind T4, which the kill switch removes):
+    # a separate small enumeration, replayed completely
+    cfg3 = make_cfg(dict(consts, Vary=["allow_refl", "plan_refl", "dry", "kill", "reuse"], FaultSites=[], MaxFaults=0), invs, [], emit=False, view=None,
+                    constraint="EmitDone")
+    res3 = run.tlc("Turn", cfg3, name="Turn_reflection_dry_kill", workers=8, timeout_s=900)
+    run.model_must_hold(res3)
+    hs_dk = [b["h"] for b in res3.emitted if any(s_["inp"]["dry"] and s_["inp"]["kill"] for s_ in b["h"])]
+    run.extra["histories_in_model"] = len(hs) + len(hs_dk)
     # quick: every history whose second turn reuses the context or carries a fault/outcome, and a spread of the rest
     cases = []
     # 13 / 16: just above the utterance's own length, so the limit cuts inside the first retrieved snippet
@@ -221,6 +228,10 @@ def check(run) -> None:
             continue
         n = len(cases)
         cases.append({"h": h, "tokens": tokens_all[n % 6], "exc": excs[(n // 16) % 4], "text": (n // 3) % 4, "tv": (n // 6) % 3, "workdir": run.workdir})
+    for j, h in enumerate(hs_dk):
+        if q and j % 3:
+            continue
+        cases.append({"h": h, "tokens": 128, "exc": "RuntimeError", "text": j % 4, "tv": 0, "workdir": run.workdir})
     outs = pmap(replay_history, cases, chunk=4)
     for c, fails in zip(cases, outs):
         run.traces += 1
